@@ -60,3 +60,16 @@ pub fn vx_reverse(v: &mut Vec<String>) ensures final(v)@ == old(v)@.reverse() { 
 pub fn vx_clone_string(s: &String) -> (r: String) ensures r@ == s@ { unimplemented!() }
 #[verifier::external_body]
 pub fn vx_clone_vec(v: &Vec<String>) -> (r: Vec<String>) ensures r@ == v@ { unimplemented!() }
+/// `v.extend(w.iter().cloned())` / `v.extend(w.iter().rev().cloned())` (std): the clones, in that order, appended
+#[verifier::external_body]
+pub fn vx_extend_cloned(v: &mut Vec<String>, w: &Vec<String>)
+    ensures final(v)@.len() == old(v)@.len() + w@.len(),
+        forall|i: int| 0 <= i < old(v)@.len() ==> final(v)@[i] == old(v)@[i],
+        forall|i: int| 0 <= i < w@.len() ==> #[trigger] final(v)@[old(v)@.len() + i]@ == w@[i]@
+{ unimplemented!() }
+#[verifier::external_body]
+pub fn vx_extend_rev_cloned(v: &mut Vec<String>, w: &Vec<String>)
+    ensures final(v)@.len() == old(v)@.len() + w@.len(),
+        forall|i: int| 0 <= i < old(v)@.len() ==> final(v)@[i] == old(v)@[i],
+        forall|i: int| 0 <= i < w@.len() ==> #[trigger] final(v)@[old(v)@.len() + i]@ == w@[w@.len() - 1 - i]@
+{ unimplemented!() }
